@@ -50,11 +50,11 @@ func init() {
 }
 
 type c05case struct {
-	c      int   // conditional branches
-	defPos int   // -1 none, else list position of the default flow
-	truth  int   // bit i: condition i true
-	early  int   // -1: every branch leads to the join; j: branch j ends at its own end event before the join
-	order  int   // which permutation of the activated branches' finishing order (index into perms)
+	c      int // conditional branches
+	defPos int // -1 none, else list position of the default flow
+	truth  int // bit i: condition i true
+	early  int // -1: every branch leads to the join; j: branch j ends at its own end event before the join
+	order  int // which permutation of the activated branches' finishing order (index into perms)
 	// premerge: the branches are merged by an exclusive gateway BEFORE the inclusive join, which therefore has ONE
 	// incoming sequence flow carrying every token of the activation — it is still the join of that fork
 	premerge bool
